@@ -268,6 +268,14 @@ func (rw *rewriter) list(in []ast.Stmt) []ast.Stmt {
 // nested function literals or statement bodies) contain a channel operation,
 // time.Sleep or runtime.Gosched.
 func (rw *rewriter) blocking(nodes ...ast.Node) (found bool, gosched bool) {
+	found, gosched, _ = rw.blocking3(nodes...)
+	return
+}
+
+// blocking3 also reports whether a channel operation proper (send, receive, close) is among them:
+// those get a scheduling point in front as well (they act on shared state: a send racing with a
+// close, a non-blocking send racing with a receiver arriving), not only the hand-back behind.
+func (rw *rewriter) blocking3(nodes ...ast.Node) (found bool, gosched bool, chanop bool) {
 	for _, n := range nodes {
 		if n == nil {
 			continue
@@ -279,10 +287,17 @@ func (rw *rewriter) blocking(nodes ...ast.Node) (found bool, gosched bool) {
 			case *ast.UnaryExpr:
 				if x.Op == token.ARROW {
 					found = true
+					chanop = true
 				}
 			case *ast.SendStmt:
 				found = true
+				chanop = true
 			case *ast.CallExpr:
+				if id, ok := x.Fun.(*ast.Ident); ok && id.Name == "close" && len(x.Args) == 1 {
+					if obj := rw.pkg.TypesInfo.Uses[id]; obj != nil && obj.Pkg() == nil {
+						chanop = true
+					}
+				}
 				if sel, ok := x.Fun.(*ast.SelectorExpr); ok {
 					if id, ok := sel.X.(*ast.Ident); ok {
 						if id.Name == "time" && sel.Sel.Name == "Sleep" {
@@ -311,14 +326,18 @@ func (rw *rewriter) stmt(s ast.Stmt) (pre []ast.Stmt, repl ast.Stmt, post []ast.
 	case *ast.GoStmt:
 		return nil, rw.goStmt(x), nil
 	case *ast.SelectStmt:
-		return nil, rw.selectStmt(x), nil
+		return []ast.Stmt{rw.yieldStmt()}, rw.selectStmt(x), nil
 	case *ast.RangeStmt:
 		return rw.rangeStmt(x)
 	case *ast.ExprStmt, *ast.AssignStmt, *ast.SendStmt, *ast.DeclStmt, *ast.IncDecStmt:
 		if as, ok := s.(*ast.AssignStmt); ok {
 			pre = rw.noteKeys(as)
 		}
-		if found, gosched := rw.blocking(s); found {
+		found, gosched, chanop := rw.blocking3(s)
+		if chanop {
+			pre = append(pre, rw.yieldStmt())
+		}
+		if found {
 			if gosched {
 				g := &ast.ExprStmt{X: rw.rtCall("Gosched")}
 				rw.synth[g] = true
